@@ -12,6 +12,7 @@ use kestrel_crypto::errors::{DecryptError, EncryptError};
 use kestrel_crypto::{AsymFileFormat, PassFileFormat, PayloadKey, PrivateKey, PublicKey};
 
 mod zero;
+mod mem;
 
 fn unhex(s: &str) -> Vec<u8> {
     if s == "-" {
@@ -387,6 +388,7 @@ fn run(a: &[&str]) -> String {
             format!("outcome=ok out={}", hex(&b))
         }
         op if op.starts_with("z_") => zero::run(a),
+        op if op.starts_with("mem_") => mem::run(a),
         _ => "outcome=badop".into(),
     }
 }
